@@ -11,7 +11,7 @@ from ..astx import C, N
 from ..core import PY, REPO, VERIF
 from ..gen_expr import Gen
 
-N_CASES = {"quick": 150, "thorough": 150000}
+N_CASES = {"quick": 350, "thorough": 150000}
 TIME_BUDGET = {"quick": 60, "thorough": 270}
 META = {
     "rule": "base queries from the C02 generator and from the fluent API; for each: equal-structure variants (re-formatted "
